@@ -152,3 +152,9 @@ Lemma caches_load_through_the_default_add_asset :
   raw_items_wf Gen.CacheMap.AssetCache_raw_items = true /\
   raw_items_wf Gen.LocalMap.LocalAssetCache_raw_items = true.
 Proof. vm_compute. split; reflexivity. Qed.
+
+(* AssetCache::no_record suspends recording unconditionally (same shape as AnyCache::no_record,
+   Tie/Records.v) *)
+Lemma assetcache_no_record_is_unconditional :
+  fn_body Gen.CacheMap.AssetCache_no_record = [EBlock [ECall (EPath ["records"; "no_record"]) [EPath ["f"]]]].
+Proof. vm_compute. reflexivity. Qed.
